@@ -28,8 +28,7 @@ def block_edges(src_fn, ref_fn, proc_crs, overlap, mbm):
     return sorted(rows), sorted(cols), ratio
 
 
-def main():
-    run = Run('C05')
+def body(run):
     run.build(extra_targets=['theories/Corr/CheckC01.v', 'theories/Corr/CheckC06.v'])
     rng = run.rng('seam')
     from homonim import utils
@@ -161,8 +160,7 @@ def main():
                         '(a processing pixel depends on the source pixels overlapping it; an up-sampled pixel on the 2 x 2 nearest '
                         'processing pixels) - exercised by the paired runs, not proved']
     run.trusted += ['GDAL reproject locality (hypotheses H_down_local, H_up_local2)']
-    run.finish()
 
 
 if __name__ == '__main__':
-    main()
+    Run('C05').guard(body)
